@@ -273,6 +273,9 @@ func c02Prom(r *h.Result, rng *h.Rng, n int) error {
 func c02(r *h.Result, rng *h.Rng, tier string, replay string) error {
 	var rep *scenario
 	if replay != "" {
+		if handled, err := c02Handoff(r, rng.Fork(), tier, replay); handled {
+			return err
+		}
 		rep = loadReplayScenario(replay)
 		if rep == nil {
 			if doc := loadReplayDoc(replay); doc != nil && doc["stream"] == "lock-probe" {
@@ -299,5 +302,10 @@ func c02(r *h.Result, rng *h.Rng, tier string, replay string) error {
 	if tier != "quick" {
 		rounds, iters = 96, 300
 	}
-	return c02LockProbe(r, rng.Fork(), rounds, iters, "C02/")
+	if err := c02LockProbe(r, rng.Fork(), rounds, iters, "C02/"); err != nil {
+		return err
+	}
+	r.Rule += ". handoff-step / handoff-handler (c02handoff.go): Loki JSON and Zipkin bodies of 1.2–2.6 MiB parsed size (1–2 crossings of the chunk threshold, 1–4 further streams/spans after the last one); non-trivial = at least 3 responses and a retry (step) / a failed INSERT and an acknowledged push (handler)"
+	_, err := c02Handoff(r, rng.Fork(), tier, "")
+	return err
 }
